@@ -374,7 +374,17 @@ def sanitizer_key(stderr_text, logdir=None):
             msg = re.sub(r"0x[0-9a-f]+", "P", msg)
             kind = "ubsan:" + msg[:60].strip().replace(" ", "_")
     if not kind:
-        return None, text
+        # valgrind memcheck (the memcheck pass of C05/C06 runs non-sanitized binaries under it)
+        m = re.search(r"==\d+== (Conditional jump or move depends on uninitialised value|Use of uninitialised value|Syscall param [^\n]*uninitialised|Invalid read of size \d+|Invalid write of size \d+|Source and destination overlap|Invalid free|Mismatched free|Jump to the invalid address|Process terminating with default action of signal \d+)", text)
+        if not m:
+            return None, text
+        kind = "memcheck:" + re.sub(r"\s+", "_", re.sub(r"\d+", "N", m.group(1)))[:50]
+        frame = "?"
+        for fm in re.finditer(r"==\d+==\s+(?:at|by) 0x[0-9A-F]+: (\w+) \(([\w.-]+\.c):\d+\)", text[m.start():]):
+            if not fm.group(2).startswith("shim"):
+                frame = "%s@%s" % (fm.group(1), fm.group(2))
+                break
+        return "%s:%s" % (kind, frame), text
     frame = "?"
     for fm in re.finditer(r"#\d+ 0x[0-9a-f]+ in (\w+) ([^\s:]+):(\d+)", text):
         fn, path = fm.group(1), fm.group(2)
